@@ -87,6 +87,13 @@ class World:
         for ms in mspecs:
             cls = modgen.build_class(ms, self.events, hw=self.hw)
             cfg[ms['name']] = modgen.module_cfg(ms, cls)
+            if not ms['export']:
+                # the configuration of an unexported module may still carry export settings of single accessibles (left
+                # over from the time it was exported): nothing of the module is reachable all the same
+                for k, a in enumerate(ms['params'] + ms['commands']):
+                    if a.get('constant') is None and k % 2 == 0:
+                        cfg[ms['name']][a['name']] = {'export': True if k % 4 == 0 else '_cfgx_' + a['name']}
+                        ms.setdefault('cfg_export', {})[a['name']] = cfg[ms['name']][a['name']]['export']
         self.node = self.nodes.Node(cfg).build()
         self.server = type('Srv', (), {})()
         self.server.dispatcher = self.node.dispatcher
@@ -297,6 +304,9 @@ class World:
         if not ms['export']:
             p = rng.choice(ms['params'])
             wn = modgen.wire_name(p) or '_' + p['name']
+            cx = ms.get('cfg_export', {}).get(p['name'])
+            if cx is not None and rng.random() < 0.7:
+                wn = cx if isinstance(cx, str) else rng.choice(['_' + p['name'], p['name']])      # the name the configuration asked for
             return {'line': f'change {mname}:{wn} {json.dumps(p["default"])}', 'klass': 'unexported-module',
                     'expect': {'kind': 'refuse', 'classes': {'NoSuchModule', 'NoSuchParameter'}}, 'tk': p['spec']['type']}
         if q < 0.45 and ms['commands'] or (not ms['params']):
